@@ -242,6 +242,8 @@ class Model:
 
     def has_hook(self, lname, hook):
         L = self.layers[lname]
+        if hook in (L.get('c_raise') or []):
+            return False       # fails at the call: overrides anything inherited, leaves no event
         if hook in L['hooks']:
             return True
         if L['kind'] == 'class':
